@@ -5,7 +5,7 @@
 import os, sys
 sys.path.insert(0, os.path.join(os.environ.get("AIOFTP_REPO", "/repo"), "src"))
 OBLIGATION = 'aioftp.server:Server.rnto#SEQ::PathConditions.__call__.<locals>.wrapper/call:Server.get_paths/pre:user-and-cwd-set'
-MODEL = {'block_size!0': 1, 'u_cur_home!53': 'Empty(Seq(String))', 'logged_present!13': False, 'cwd!54': 'Empty(Seq(String))', 'current_directory_done!16': True, 'current_directory_present!15': True, 'user_done!12': False, 'restart_offset!10': 0, 'logged_done!14': True, 'rename_from_present!17': True, 'rename_from_done!18': True}
+MODEL = {'cwd!1258': 'Empty(Seq(String))', 'block_size!0': 1, 'current_directory_done!16': True, 'restart_offset!10': 0, 'current_directory_present!15': True, 'u_cur_home!1257': 'Empty(Seq(String))', 'logged_present!13': False, 'user_present!11': False, 'logged_done!14': True, 'rename_from_present!17': True, 'rename_from_done!18': True}
 SOLVER_NOTE = ''
 
 print("obligation", OBLIGATION, "failed; no concrete failing input could be constructed automatically")
